@@ -186,6 +186,7 @@ class Normaliser:
         self._cache: dict[int, ast.AST] = {}
         self._new_by_name: dict | None = None
         self._baseline_names: set[str] | None = None
+        self._new_names: set[str] | None = None
         self.inlined: list[str] = []
 
     # ---- inventory ---------------------------------------------------------------
@@ -230,6 +231,9 @@ class Normaliser:
         key = id(fn)
         if key in self._cache:
             return self._cache[key]
+        if not self._needs(fn):
+            self._cache[key] = fn
+            return fn
         mod = fn
         cls = None
         while getattr(mod, '_parent', None) is not None:
@@ -253,6 +257,52 @@ class Normaliser:
         new._expanded_from = fn                          # type: ignore[attr-defined]
         self._cache[key] = new
         return new
+
+    def new_names(self) -> set[str]:
+        """names of functions defined somewhere in the repository that are not in the baseline"""
+        if self._new_names is None:
+            import re as _re
+            defined: set[str] = set()
+            for rel in self.repo.py_files('dashlive'):
+                try:
+                    defined.update(_re.findall(r'^\s*(?:async\s+)?def\s+(\w+)\s*\(', self.repo.source(rel), _re.M))
+                except Exception:
+                    pass
+            if self._baseline_names is None:
+                self._baseline_names = {q.rsplit('.', 1)[-1] for qs in self.baseline.values() for q in qs}
+            # a name is new if some definition of it is not listed: compare per file
+            new: set[str] = set()
+            for rel in self.repo.py_files('dashlive'):
+                known = {q.rsplit('.', 1)[-1] for q in self.baseline.get(rel, [])}
+                try:
+                    here = set(_re.findall(r'^\s*(?:async\s+)?def\s+(\w+)\s*\(', self.repo.source(rel), _re.M))
+                except Exception:
+                    continue
+                new |= here - known
+            self._new_names = new
+        return self._new_names
+
+    def _needs(self, fn: ast.AST) -> bool:
+        """cheap test: can any transformation apply?"""
+        if self._baseline_names is None:
+            self._baseline_names = {q.rsplit('.', 1)[-1] for qs in self.baseline.values() for q in qs}
+        for n in ast.walk(fn):
+            if isinstance(n, (ast.Match, ast.IfExp)):
+                return True
+            if isinstance(n, (ast.FunctionDef, ast.AsyncFunctionDef)) and n is not fn:
+                return True
+            if isinstance(n, ast.Call):
+                f = n.func
+                name = f.id if isinstance(f, ast.Name) else (f.attr if isinstance(f, ast.Attribute) else None)
+                if name == 'format' and isinstance(f, ast.Attribute) and isinstance(f.value, ast.Constant):
+                    return True
+                if name and self.baseline and name in self.new_names() and (
+                        isinstance(f, ast.Name) or (isinstance(f.value, ast.Name))):
+                    return True
+            if isinstance(n, ast.BinOp) and isinstance(n.op, ast.Mod) and isinstance(n.left, ast.Constant) \
+                    and isinstance(n.left.value, str):
+                return True
+        return False
 
     # ---- transformations -----------------------------------------------------------------
     def _expand_fn(self, fn: ast.AST, rel, mod, cls, stack, depth) -> bool:
@@ -479,8 +529,16 @@ class Normaliser:
     def _resolve(self, call: ast.Call, fn, rel, mod, cls):
         """-> (callee FunctionDef, bound receiver expression or None, owner rel) or None"""
         f = call.func
-        nested = {n.name: n for n in ast.walk(fn)
-                  if isinstance(n, (ast.FunctionDef, ast.AsyncFunctionDef)) and n is not fn}
+        nm = f.id if isinstance(f, ast.Name) else (f.attr if isinstance(f, ast.Attribute) else None)
+        if nm is None:
+            return None
+        nested = getattr(fn, '_nested_defs', None)
+        if nested is None:
+            nested = {n.name: n for n in ast.walk(fn)
+                      if isinstance(n, (ast.FunctionDef, ast.AsyncFunctionDef)) and n is not fn}
+            fn._nested_defs = nested
+        if nm not in nested and nm not in self.new_names():
+            return None
         if isinstance(f, ast.Name):
             if f.id in nested:
                 return nested[f.id], None, rel, True
